@@ -34,7 +34,8 @@ def keys (t : Table) : List String := t.map (·.1)
 
 end Table
 
-/-- Places where the unchanged code deviates from the property; `asIs` mirrors /repo today. -/
+/-- Places where the unchanged code deviates from the property; `asIs` mirrors /repo today,
+`repaired` is the variant with every proposed patch applied. -/
 structure Defects where
   /-- conf.FieldsFromStruct resolves clashes between a struct's own fields and the fields of its
       embedded structs by *declaration order* (merge loop) instead of Go's depth rule -/
@@ -43,10 +44,22 @@ structure Defects where
   unexportedAccepted : Bool
   /-- checker `fieldType`/`methodType` search embedded structs depth-first, first hit wins -/
   depthFirstMember : Bool
+  /-- `IdentifierNode` accepts a method of the environment as a plain value (the VM cannot fetch it) -/
+  methodAsValue : Bool
+  /-- `FetchFn` calls an interface-kinded struct field as it is and unwraps map values unconditionally:
+      a func held in an `interface{}` field, or in a map with a func element type, cannot be called -/
+  fetchFnNoUnwrap : Bool
+  /-- `fetch` indexes maps with the plain string: a defined string key type (`map[MyStr]T`) fails,
+      although `CreateTypesTable` accepts such keys (it tests the kind only) -/
+  mapKeyExact : Bool
+  /-- checker `fieldType`/`methodType` accept a member of a map whatever its key type -/
+  mapMemberAnyKey : Bool
+  /-- checker `fieldType` dereferences every pointer level, `fetch` only one (`**struct`) -/
+  derefAllLevels : Bool
   deriving DecidableEq, Repr
 
-def Defects.asIs : Defects := ⟨true, true, true⟩
-def Defects.repaired : Defects := ⟨false, false, false⟩
+def Defects.asIs : Defects := ⟨true, true, true, true, true, true, true, true⟩
+def Defects.repaired : Defects := ⟨false, false, false, false, false, false, false, false⟩
 
 /-! ## Spec: what Go / `reflect` resolve (the selector rule)
 
@@ -201,13 +214,16 @@ def createTypesTable (d : Defects) (σ : Table → Table) (e : Env) : Option Tab
 /-! ## the checker's use of the table and of member types -/
 
 inductive NameErr where
-  | ambiguous | unknown
+  | ambiguous | unknown | methodValue
   deriving DecidableEq, Repr
 
 /-- `IdentifierNode` in strict mode (what `expr.Env` sets), not nil-safe: the type or the error -/
-def identType (tbl : Table) (name : String) : Except NameErr (Option Ty) :=
+def identType (d : Defects) (tbl : Table) (name : String) : Except NameErr (Option Ty) :=
   match tbl.get? name with
-  | some g => if g.ambiguous then .error .ambiguous else .ok g.ty
+  | some g =>
+    if g.ambiguous then .error .ambiguous
+    else if g.method && !d.methodAsValue then .error .methodValue
+    else .ok g.ty
   | none => .error .unknown
 
 def interfaceType : Ty := .iface []
@@ -232,14 +248,23 @@ def firstSome {α β : Type} (f : α → Option β) : List α → Option β
   | [] => none
   | x :: xs => match f x with | some y => some y | none => firstSome f xs
 
+/-- can the string constant be used as a key of a map with this key type?
+`MapIndex(reflect.ValueOf(name))` needs `string` to be assignable to the key type; the repaired
+`fetch` converts the constant to a defined string key type. -/
+def stringKeyOk (d : Defects) (k : Ty) : Bool :=
+  k == .string || k.isEmptyIface || (!d.mapKeyExact && k.kind == .string)
+
+def Ty.mapKey? (t : Ty) : Option Ty := match t.core with | .map k _ => some k | _ => none
+
 /-- `fieldType` of checker/types.go -/
 def fieldType (d : Defects) : Nat → Ty → String → Option Ty
   | 0, _, _ => none
   | n + 1, t, name =>
-    let t := t.deref
+    let t := if d.derefAllLevels then t.deref else t.derefOnce
     match t.kind with
     | .iface => some interfaceType
-    | .map => t.elem?
+    | .map =>
+      if d.mapMemberAnyKey || (t.mapKey?.map (stringKeyOk d)).getD false then t.elem? else none
     | .struct =>
       if d.depthFirstMember then
         match t.fields.find? (fun f => f.name = name && (d.unexportedAccepted || f.exported)) with
@@ -261,7 +286,10 @@ def methodType (d : Defects) : Nat → Ty → String → Option (Ty × Bool)
       let dd := t.derefOnce
       match dd.kind with
       | .iface => some (interfaceType, false)
-      | .map => dd.elem?.map fun e => (e, false)
+      | .map =>
+        if d.mapMemberAnyKey || (dd.mapKey?.map (stringKeyOk d)).getD false then
+          dd.elem?.map fun e => (e, false)
+        else none
       | .struct =>
         if d.depthFirstMember then
           match dd.fields.find? (fun f => !f.anon && f.name = name && (d.unexportedAccepted || f.exported)) with
@@ -278,14 +306,15 @@ def methodType (d : Defects) : Nat → Ty → String → Option (Ty × Bool)
 What a run on a *fully populated* value of the given type does with a name: `some τ` — a value held in
 a slot of static type `τ` is produced; `none` — the run fails ("cannot fetch …", a reflect panic). -/
 
-/-- can the string constant be used as a key of a map with this key type (`MapIndex(reflect.ValueOf(name))`)? -/
-def stringKeyOk (k : Ty) : Bool := k == .string || k.isEmptyIface
+/-- the value `fetch` looks into: through one pointer when it points to a struct -/
+def Ty.fetchBase (t : Ty) : Ty :=
+  if t.kind == .ptr && t.derefOnce.kind == .struct then t.derefOnce else t
 
 /-- `fetch(from, name)` for a non-environment value of static type `t` -/
-def fetchTy (t : Ty) (name : String) : Option Ty :=
-  let t := if t.kind == .ptr && t.derefOnce.kind == .struct then t.derefOnce else t
+def fetchTy (d : Defects) (t : Ty) (name : String) : Option Ty :=
+  let t := t.fetchBase
   match t.core with
-  | .map k v => if stringKeyOk k then some v else none
+  | .map k v => if stringKeyOk d k then some v else none
   | .struct _ =>
     match reflField t name with
     | .found f => if f.exported then some f.ty else none
@@ -293,7 +322,7 @@ def fetchTy (t : Ty) (name : String) : Option Ty :=
   | _ => none
 
 /-- top-level identifier: `OpFetchMap` for a `map[string]interface{}` environment, `fetch(env, name)` otherwise -/
-def fetchEnv (e : Env) (name : String) : Option (Option Ty) :=
+def fetchEnv (d : Defects) (e : Env) (name : String) : Option (Option Ty) :=
   match e.ty with
   | none => none
   | some t =>
@@ -302,36 +331,40 @@ def fetchEnv (e : Env) (name : String) : Option (Option Ty) :=
       | some kv => some kv.2
       | none => some none
     else
-      let t' := if t.kind == .ptr && t.derefOnce.kind == .struct then t.derefOnce else t
-      match t'.core with
+      match t.fetchBase.core with
       | .map k v =>
-        if stringKeyOk k then
+        if stringKeyOk d k then
           match e.entries.find? (fun kv => kv.1 = name) with
           | some kv => some kv.2
           | none => some (some v)
         else none
-      | _ => (fetchTy t name).map some
+      | _ => (fetchTy d t name).map some
 
 /-- `FetchFn(from, name)` followed by the call: the callable's type and whether it came from the method
 set; `none` — the run fails -/
-def fetchFnTy (t : Ty) (entries : List (String × Option Ty)) (name : String) : Option (Ty × Bool) :=
+def fetchFnTy (d : Defects) (t : Ty) (entries : List (String × Option Ty)) (name : String) :
+    Option (Ty × Bool) :=
   match methodByName t name with
   | some m => some (m, true)
   | none =>
     let dd := t.derefOnce
     match dd.core with
     | .map k v =>
-      -- `value.Elem()` only works when the map's element type is an interface (or pointer) type
-      if stringKeyOk k && v.kind == .iface then
-        match entries.find? (fun kv => kv.1 = name) with
-        | some (_, some ft) => some (ft, false)
-        | _ => none
+      if stringKeyOk d k then
+        if v.kind == .iface then
+          match entries.find? (fun kv => kv.1 = name) with
+          | some (_, some ft) => some (ft, false)
+          | _ => none
+        else if d.fetchFnNoUnwrap then none   -- `value.Elem()` on a non-interface value panics
+        else some (v, false)
       else none
     | .struct _ =>
-      -- `FieldByName` then `Value.Call`: the field must be exported and of func kind (a function held
-      -- in a field of interface type is refused by `reflect`: "Call on interface Value")
       match reflField dd name with
-      | .found f => if f.exported && f.ty.kind == .func then some (f.ty, false) else none
+      | .found f =>
+        if !f.exported then none                    -- "Call using value obtained using unexported field"
+        else if f.ty.kind == .func then some (f.ty, false)
+        else if f.ty.kind == .iface && !d.fetchFnNoUnwrap then some (f.ty, false)
+        else none                                   -- "Call on interface Value"
       | _ => none
     | _ => none
 
